@@ -163,7 +163,12 @@ func (p *Parser) parseHeader(data []byte) (header *parser.PacketHeader, buf []by
 
 		for ; end < len(data); end++ {
 			c := data[end]
-			if c == '"' && data[end-1] != '\\' {
+			if c == '\\' {
+				// A backslash escapes the next character, which therefore cannot end the string.
+				end++
+				continue
+			}
+			if c == '"' {
 				b := data[start : end+1]
 
 				tmp = make([]byte, len(b)+2)
